@@ -19,8 +19,9 @@ EXPLANATION = ('Model `Persist` (Lean) = the S2 engine as compiled with `persist
                'evaluation path (`c26_flatten_cut`). Tied to salsa by this run: `vh persist` does a serde_json round trip into a fresh '
                'database in the middle of generated histories (even nodes persisted, odd nodes not), values AND X/V event sequences '
                'after the restore are compared line by line with `svdriver persist`; the oracle (independent reference interpreter + '
-               'restore monitor "no WillExecute for a persisted function verified in the snapshot\'s revision") checks the property itself.')
-ASSUMPTIONS = ['bodies are deterministic', 'serde / serde_json are trusted', 'accumulators, tracked structs, interned values and cycles are outside this '
+               'restore monitor "no WillExecute for a persisted function verified in the snapshot\'s revision") checks the property itself. '
+               'Second family (oracle only): untracked reads (`u0` leaves) in persisted and non-persisted functions, cell changes followed by a new revision.')
+ASSUMPTIONS = ['bodies are deterministic', 'the theorems cover bodies that read inputs and functions only; untracked reads are decided by the oracle family --cells (known finding kf6 lives there)', 'serde / serde_json are trusted', 'accumulators, tracked structs, interned values and cycles are outside this '
                'fragment (salsa does not serialize accumulators)', 'single thread', 'the fresh database has the same type (same ingredient indices)']
 TRUSTED_EXTRA = ['serde_json round trip inside the harness (the serialized text is not inspected)']
 
